@@ -4,10 +4,10 @@ cd "$(dirname "$0")/.."
 for p in "$@"; do
   for s in 0 1 2 3 4 5; do
     out=$(VERIF_SEED=$s /usr/bin/time -f "%es" /venv/bin/python -W ignore harness/check.py $p --tier quick 2>&1)
-    echo "$p seed=$s: $(echo "$out" | grep -E '^(OK|VIOLATION|KNOWN-FINDING)' | tr '\n' '|' | cut -c1-300) $(echo "$out" | tail -1)"
+    echo "$p seed=$s: $(echo "$out" | grep -E '^(OK|VIOLATION)' | cut -c1-160 | tr '\n' '|') known=$(echo "$out" | grep -c '^KNOWN-FINDING') $(echo "$out" | tail -1)"
   done
   if [ -n "$T" ]; then
     out=$(/usr/bin/time -f "%es" /venv/bin/python -W ignore harness/check.py $p --tier thorough 2>&1)
-    echo "$p thorough: $(echo "$out" | grep -E '^(OK|VIOLATION|KNOWN-FINDING)' | tr '\n' '|' | cut -c1-300) $(echo "$out" | tail -1)"
+    echo "$p thorough: $(echo "$out" | grep -E '^(OK|VIOLATION)' | cut -c1-160 | tr '\n' '|') known=$(echo "$out" | grep -c '^KNOWN-FINDING') $(echo "$out" | tail -1)"
   fi
 done
